@@ -358,6 +358,7 @@ async fn watch_spawn(r: u64) {
     }
 }
 
+static HELPER_DIED: AtomicBool = AtomicBool::new(false);
 static HANGS: std::sync::atomic::AtomicU64 = std::sync::atomic::AtomicU64::new(0);
 
 /// How long a started compiler process (its script sleeps a few ms and writes at most 600 kB) may take to end.
@@ -661,7 +662,15 @@ fn det(case: &Sx) -> Sx {
                         poll_one(&mut slots, r, k).await;
                     }
                 }
-                "poll" => {
+                "poll" | "advance" => {
+                    if tag == "advance" {
+                        // the clock jumps ahead (tokio's paused clock): time-outs anywhere in the code under test
+                        // fire as if the requests had queued that long; on the real code nothing may happen
+                        let secs = op.arg(1).u64().min(1_000_000);
+                        tokio::time::pause();
+                        tokio::time::advance(Duration::from_secs(secs)).await;
+                        tokio::time::resume();
+                    }
                     let mut ids: Vec<u64> = slots
                         .iter()
                         .filter(|(_, s)| matches!(s, Slot::Pending(_)))
@@ -1172,13 +1181,29 @@ fn main() {
     }
     let _cleanup = Cleanup;
     let original = allowed_cpus();
-    vh::run_lines(|case| match leg.as_str() {
-        "det" => det(case),
-        "mt" => mt(case),
-        "env" => {
-            vh::quiet_panics();
-            env_leg(case, &original)
+    // a panic of the helper thread (it has no name) is an observation, not noise on stdout/stderr
+    std::panic::set_hook(Box::new(|_info| {
+        if std::thread::current().name().is_none() {
+            HELPER_DIED.store(true, Ordering::SeqCst);
         }
+    }));
+    let guarded = |f: &dyn Fn(&Sx) -> Sx, case: &Sx| -> Sx {
+        HELPER_DIED.store(false, Ordering::SeqCst);
+        let res = vh::catch(|| f(case));
+        let died = HELPER_DIED.load(Ordering::SeqCst);
+        match res {
+            Ok(out) if !died => out,
+            // the helper thread is the only one that moves tokens from the pipe to waiters: without it no request can
+            // ever obtain a token again (later acquire()s panic or fail)
+            _ if died => Sx::L(vec![Sx::sym("helper_died")]),
+            Err(m) => Sx::L(vec![Sx::sym("panic"), Sx::B(m.into_bytes())]),
+            Ok(out) => out,
+        }
+    };
+    vh::run_lines(|case| match leg.as_str() {
+        "det" => guarded(&det, case),
+        "mt" => guarded(&mt, case),
+        "env" => guarded(&|c: &Sx| env_leg(c, &original), case),
         // the token count `Client::new()` would use in this process' CPU set (server.rs: Client::new())
         "ncpus" => Sx::L(vec![Sx::sym("ncpus"), Sx::usize(sccache::util::num_cpus())]),
         _ => Sx::L(vec![Sx::sym("unknown_leg")]),
